@@ -1,5 +1,4 @@
 /-- translated from the source text of `fieldcompare/_numpy_utils.py: walk_adjacent_true_index_ranges` -/
--- v0 = bool_array, v1 = include_upper_edge, v2 = begin, v3 = end, v4 = in_true_block, v5 = i
 def c02WalkTrueRangesSrc : Fc.PyLite.Fn := {
   name := "walk_adjacent_true_index_ranges"
   params := ["v0", "v1"]
